@@ -315,6 +315,7 @@ def _phitable(t):
             d = digest(leaf)
             if d not in [digest(q) for q in distinct]:
                 distinct.append(leaf)
+        distinct = [q for q in distinct if digest(q) in rows]      # a leaf no assignment selects is not part of the decision
         distinct.sort(key=digest)
         # atoms the outcome does not depend on are dropped, so that a redundant test (`a and not (b and a)`) leaves no trace
         live = []
